@@ -312,6 +312,11 @@ Next ==
 
 Spec == Init /\ [][Next]_vars
 
+\* liveness: under weak fairness of the pipeline's own steps the call returns and every goroutine finishes
+FairSpec == Init /\ [][Next]_vars /\ WF_vars(Next /\ ~Terminated)
+Termination == <>(pc[Main] = "done")
+NoLeak == <>[](\A p \in Procs : pc[p] = "done")
+
 ---------------------------------------------------------------------------
 (* Properties.  Every action other than Terminated makes progress, so "always returns and leaves no  *)
 (* goroutine behind" is: the only states without a successor other than themselves are AllDone states *)
